@@ -589,7 +589,11 @@ class Effect(DaeObject):
                     floatnode = paramnode.find(collada.tag('float4'))
                 paramid = paramnode.get('sid')
                 if floatnode is not None and paramid is not None and len(paramid) > 0 and floatnode.text is not None:
-                    localscope[paramid] = [float(v) for v in floatnode.text.split()]
+                    values = tuple([float(v) for v in floatnode.text.split()])
+                    if floatnode.tag == collada.tag('float') and len(values) == 1:
+                        localscope[paramid] = values[0]
+                    else:
+                        localscope[paramid] = values
 
     @staticmethod
     def load(collada, localscope, node):
